@@ -311,7 +311,9 @@ def stepLine (s : DState) (w : List String) : DState × String :=
         let dom8 := dom7 && batch.all fun p => decide (1 ≤ p.data.length)
         let r7 := if dom7 then toString (P_C07 c (batch.map Packet.data) fs) else "na"
         let r8 := if dom8 then toString (P_C08 c (batch.map fun p => (p.mt, p.data.length)) fs) else "na"
-        (s, s!"chk C07={r7} C08={r8}")
+        -- C09: every frame announces the message type of the messages it carries
+        let r9 := if dom7 then toString ((fs.flatMap fun f => f.msgs.map fun _ => f.mt) == pieceMts c.cap (batch.map fun p => (p.mt, p.data.length))) else "na"
+        (s, s!"chk C07={r7} C08={r8} C09={r9}")
   -- chkrt <dev> <stream> <pkt ids…> | <packet views…> : P_C01 on packets decoded by the implementation
   | "chkrt" :: dev :: stream :: rest =>
     let (ids, views) := splitAt "|" rest
